@@ -697,8 +697,18 @@ class Flow:
             if std and nm in LEN_OF_ARG0 and argl:
                 res = {('len(' + x + ')') if is_path_leaf(x) and not x.startswith('len(') else x
                        for x in argl[0]}
+            elif std and nm == 'zip' and len(argl) == 2:
+                # Iterator::zip: items are pairs (item of the receiver, item of the argument); the pair's fields
+                # keep their own sources
+                res = set(argl[0]) | set(argl[1])
+                if not dest['p']:
+                    ch |= self._merge_agg(self.find(dest['l']), '', {'0': set(argl[0]), '1': set(argl[1])})
             elif std and nm in ELEMENT_OF_ARG0 and argl:
                 res = {self.ext(x, '[*]') for x in argl[0]}
+                if not dest['p'] and nm in ('next', 'next_back', 'peek', 'nth'):
+                    m0 = self._agg_of_operand(args[0])
+                    if m0:
+                        ch |= self._merge_agg(self.find(dest['l']), '', {k: {self.ext(x, '[*]') for x in v} for k, v in m0.items()})
                 # a constant index is kept as a separate leaf (which element was selected)
                 if len(argl) > 1 and len(argl[1]) == 1:
                     for x in argl[1]:
